@@ -236,7 +236,7 @@ Inductive op :=
 | ORead (addr len : N)
 | OWrite (addr : N) (data : list N)
 | OCkpt                      (* save; load into a fresh storage of the same shape; continue with it *)
-| OLoadTrunc (k : N)         (* save; keep the first k bytes (k < length); load into the same storage *)
+| OLoadTrunc (k : N)         (* save; keep the first (k mod length) bytes, a strict prefix; load into the same storage *)
 | OLoadShape (cap unit : N). (* save; overwrite the shape header; load into the same storage *)
 
 (** what one operation shows *)
@@ -256,7 +256,7 @@ Definition step (old : bool) (st : storage) (o : op) : storage * obs :=
       | None => (st, BCkpt s false)
       end
   | OLoadTrunc k =>
-      match load st (firstn (N.to_nat k) (save st)) with
+      match load st (firstn (N.to_nat (k mod lenN (save st))) (save st)) with
       | Some st' => (st', BLoad true)
       | None => (st, BLoad false)
       end
